@@ -38,8 +38,14 @@ SIZES = {"u8": 1, "bool": 1, "u16": 2, "u32": 4, "i32": 4, "u64": 8, "i64": 8, "
 def decode(vals, sig):
     """vals: list of byte lists in draw order; sig: ['n:u64', 'd:i64', ...] -> dict"""
     out = {}
-    for i, item in enumerate(sig):
+    i = -1
+    for item in sig:
         name, ty = item.split(":")
+        if ty.startswith("skip"):
+            # `_:skipN` — N draws the template does not need (e.g. the bytes of an array)
+            i += int(ty[4:] or 1)
+            continue
+        i += 1
         if i >= len(vals):
             break
         b = bytes(vals[i])
@@ -169,18 +175,34 @@ def confirm(h, r, ov, env, outdir):
     log = os.path.join(outdir, f"playback-{h['name']}.log")
     res, rc, wall = kani_run.run_group(ov, h["crate"], [h], env2, 1, log, playback=True, scaled=h.get("scaled", False))
     pr = res[h["name"]]
-    vals = pr.get("concrete_vals")
+    tests = pr.get("playback_tests") or []
     if pr["status"] == "SUCCESSFUL":
         return {"status": "no-small-witness",
                 "summary": "no counterexample exists under the witness size cap (VERIF_REPLAY_CAP): the violation only "
                            "manifests for streams too large to materialise natively", "playback_s": round(wall, 1)}
-    if not vals:
+    if not tests:
         return {"status": "no-values", "summary": f"concrete playback produced no values (status {pr['status']})",
                 "playback_s": round(wall, 1)}
-    values = decode(vals, sig)
-    values.update(consts)
-    out = run_native(ov, template, values, outdir, h["name"], scaled=h.get("scaled", False))
-    out["values"] = values
+    # one witness per failed check: replay them in turn until one reproduces (at most 4)
+    tried = []
+    out = None
+    seen = set()
+    for k, tcase in enumerate(tests):
+        values = decode(tcase["vals"], sig)
+        values.update(consts)
+        key = json.dumps(values, sort_keys=True)
+        if key in seen:
+            continue
+        seen.add(key)
+        if len(tried) >= 4:
+            break
+        out = run_native(ov, template, values, outdir, f"{h['name']}-{len(tried)}", scaled=h.get("scaled", False))
+        out["values"] = values
+        out["for_check"] = tcase["desc"]
+        tried.append({"check": tcase["desc"], "values": values, "status": out["status"], "summary": out["summary"][:300]})
+        if out["status"] == "reproduced":
+            break
+    out["witnesses_tried"] = tried
     out["template"] = template
     out["playback_s"] = round(wall, 1)
     out["total_s"] = round(time.time() - t0, 1)
